@@ -34,6 +34,13 @@ func routeInstances(tier string) []explore.Params {
 		}
 		return out
 	}
+	if tier == "many" { // C06: "any number of concurrently outstanding distinct IDs": 300 of them, both directions, both orders
+		var pats []string
+		for i := 0; i < 300; i++ {
+			pats = append(pats, []string{"hA0", "pA0", "hD0", "pD0"}[i%4])
+		}
+		return []explore.Params{{"pat": strings.Join(pats, ",")}}
+	}
 	if tier == "late" { // C06: the connection is used again, with bulk data in both directions, 6 s after it was dialled
 		for _, a := range []string{"hA0", "pA0", "hD2000", "pD4900"} {
 			out = append(out, explore.Params{"pat": a, "late": "1"})
